@@ -1258,9 +1258,12 @@ def run(run):
         "not the subject of the property)",
         "lists mix ints, decimals and strings (any length, both cases, digits, a non-ASCII letter; ordered by code "
         "point); order statistics only on all-numeric or all-string lists",
-        "pow: results of at most 600 bits (and every power of 0, 1, -1 and of +-10) are computed by TLC in limbs; longer "
-        "ones (exponents up to 2^16) are validated by TLC through necessary conditions (residues modulo 12 primes, "
-        "sign, length bracket) and compared with the host's exact power by the harness",
+        "pow: powers of a one-limb base up to an estimated 250 000 limb steps (2^5000, 3^5000, 7^2047), of longer bases "
+        "up to 600 bits, and every power of 0, 1, -1 and +-10 are multiplied out by TLC in limbs; longer ones (exponents "
+        "up to 2^16) are validated by TLC through necessary conditions (residues modulo 12 primes, sign, length "
+        "bracket) and compared with the host's exact power by the harness",
+        "mean over decimals whose sum is not an exact double must not depend on the order of the list either "
+        "(STRICT_MEAN_ORDER; repaired in the repository by adding without intermediate rounding)",
     ]
 
 
